@@ -1,5 +1,6 @@
 import datetime
 import json
+import operator
 import pkgutil
 import platform
 import math
@@ -471,6 +472,15 @@ def bind_native_fun(environment, func, alias=None):
     add(environment, func, alias)
 
 
+def decimal_op(op, a, b, pos):
+    try:
+        return ValueDecimal(op(a, b))
+    except OverflowError:
+        raise CklRuntimeError(
+            ValueString("ERROR"), "Numeric overflow in decimal operation", pos
+        )
+
+
 def math_func(func, pos, *values):
     try:
         return ValueDecimal(func(*values))
@@ -561,7 +571,9 @@ class FuncAdd(ValueFunc):
             return ValueInt(a.value + b.value)
 
         if a.isNumerical() and b.isNumerical():
-            return ValueDecimal(a.asDecimal().value + b.asDecimal().value)
+            return decimal_op(
+                operator.add, a.asDecimal().value, b.asDecimal().value, pos
+            )
 
         if a.isList():
             if b.isCollection():
@@ -1307,7 +1319,9 @@ class FuncDiv(ValueFunc):
                 raise CklRuntimeError(
                     ValueString("ERROR"), "divide by zero", pos
                 )
-            return ValueDecimal(a.asDecimal().value / divisor)
+            return decimal_op(
+                operator.truediv, a.asDecimal().value, divisor, pos
+            )
 
         raise CklRuntimeError(
             ValueString("ERROR"),
@@ -2675,7 +2689,9 @@ class FuncMod(ValueFunc):
                 raise CklRuntimeError(
                     ValueString("ERROR"), "divide by zero", pos
                 )
-            return ValueDecimal(a.asDecimal().value % b.asDecimal().value)
+            return decimal_op(
+                operator.mod, a.asDecimal().value, b.asDecimal().value, pos
+            )
 
         raise CklRuntimeError(
             ValueString("ERROR"),
@@ -2729,7 +2745,9 @@ class FuncMul(ValueFunc):
             return ValueInt(a.value * b.value)
 
         if a.isNumerical() and b.isNumerical():
-            return ValueDecimal(a.asDecimal().value * b.asDecimal().value)
+            return decimal_op(
+                operator.mul, a.asDecimal().value, b.asDecimal().value, pos
+            )
 
         raise CklRuntimeError(
             ValueString("ERROR"),
@@ -4013,7 +4031,9 @@ class FuncSub(ValueFunc):
             return ValueInt(a.value - b.value)
 
         if a.isNumerical() and b.isNumerical():
-            return ValueDecimal(a.asDecimal().value - b.asDecimal().value)
+            return decimal_op(
+                operator.sub, a.asDecimal().value, b.asDecimal().value, pos
+            )
 
         raise CklRuntimeError(
             ValueString("ERROR"),
